@@ -1027,4 +1027,39 @@ def wrapper (fingerprint : Cert → Bytes) (checker : Option Bytes) (isClient : 
              reject := some (.raise "TLSAuthenticationError"), closed := true }
     | _, _ => o
 
+/-! ### the `resumed` flag and the Checker's skip-on-resumed policy -/
+
+/-- how the peer was authenticated in this connection -/
+inductive AuthMode
+  | cert          -- certificate handshake (any version)
+  | extPsk        -- TLS 1.3 external PSK from `settings.pskConfigs` (psk_ke or psk_dhe_ke)
+  | ticket13      -- TLS 1.3 PSK that is a session ticket (resumption)
+  | sessionId12   -- TLS ≤ 1.2 session-ID resumption
+  | ticket12      -- TLS ≤ 1.2 session-ticket resumption
+  | srp | anon
+  deriving DecidableEq, Repr
+
+/-- `connection.resumed` as `_handshakeDone` sets it.  TLS 1.3 server: `resuming = not external`;
+    TLS 1.3 client: `resuming` only when the selected identity is NOT one of `settings.pskConfigs`;
+    TLS ≤ 1.2: the session-ID / ticket paths. -/
+def resumedOf : AuthMode → Bool
+  | .ticket13 | .sessionId12 | .ticket12 => true
+  | .cert | .extPsk | .srp | .anon => false
+
+/-- TLS 1.3 server: `resuming` from the PSK choice -/
+def resuming13 (sel : Option PskChoice) : Bool :=
+  match sel with
+  | some c => !c.external
+  | none => false
+
+/-- `Checker.__call__`: `if not self.checkResumedSession and connection.resumed: return` -/
+def checkerSkips (checkResumed resumed : Bool) : Bool := !checkResumed && resumed
+
+/-- `_handshakeWrapperAsync` with `Checker(x509Fingerprint=fp, checkResumedSession=cr)` -/
+def wrapperR (certFp : Cert → Bytes) (checker : Option (Bytes × Bool)) (isClient resumed : Bool)
+    (o : Outcome) : Outcome :=
+  match checker with
+  | some (fp, cr) => if checkerSkips cr resumed then o else wrapper certFp (some fp) isClient o
+  | none => o
+
 end Tls.Auth
